@@ -89,46 +89,25 @@ theorem makeEntry_dict_kind {n : T} {d : Fields} (h : makeEntry true n = .dict d
 
 /-! ## the fold step of `fromList` -/
 
-abbrev FState := Tree × Nat × List (Nat × NodeId)
-
-/-- the fold step of `fromList`, named. -/
-def fstep (typed : Bool) (strAtom : String → Atom) (deser : Fields → DRes)
+/-- the fold step of `fromList` (the model's `fromListStep`), under the name used below. -/
+abbrev fstep (typed : Bool) (strAtom : String → Atom) (deser : Fields → DRes)
     (acc : Except Err FState) (r : Nat × Payload) : Except Err FState :=
-  match acc with
-  | .error e => .error e
-  | .ok (t, next, idxMap) =>
-    let idx := idxMap.length
-    match idxMap.lookup r.1 with
-    | none => .error .key
-    | some parent =>
-      match r.2 with
-      | .str s =>
-        (t.addData next parent (strAtom s) .none none (if typed then some "child" else none)).map fun t1 =>
-          (t1, next + 1, idxMap ++ [(idx, next)])
-      | .ref k =>
-        match idxMap.lookup k with
-        | none => .error .key
-        | some first =>
-          match findT first t.root with
-          | none => .error .key
-          | some fc =>
-            let (t1, n1, e) := t.addNode next parent fc true (t.parentId first) .none none (some fc.did) (if typed then fc.kind else none)
-            match e with
-            | some e => .error e
-            | none => .ok (t1, n1, idxMap ++ [(idx, next)])
-      | .dict d =>
-        let did := (lookupF d "data_id").bind jDid
-        let kind := if typed then some (match lookupF d "kind" with | some (.str k) => k | _ => "child") else none
-        match deser d with
-        | .notImplemented => .error .notImplemented
-        | .error => .error .callback
-        | .atom a =>
-          (t.addData next parent a .none did kind).map fun t1 => (t1, next + 1, idxMap ++ [(idx, next)])
+  fromListStep typed strAtom deser acc r
 
 theorem fromList_eq_fold (typed : Bool) (strAtom : String → Atom) (deser : Fields → DRes)
     (rows : List (Nat × Payload)) :
     fromList typed strAtom deser rows =
       (rows.foldl (fstep typed strAtom deser) (.ok ({ typed := typed }, 1, [(0, 0)]))).map (·.1) := rfl
+
+/-- a `data_id` field written by `makeEntry` is a number or a string. -/
+theorem didUnhashable_of_lookup {d : Fields} {o : Option DataId}
+    (h : lookupF d "data_id" = o.map didJ) : didUnhashable d = false := by
+  unfold didUnhashable
+  unfold lookupF at h
+  rw [h]
+  cases o with
+  | none => rfl
+  | some x => cases x <;> rfl
 
 /-! ## hypotheses of the round trip -/
 
@@ -150,7 +129,7 @@ def DataById (all : List T) : Prop := ∀ n ∈ all, ∀ m ∈ all, n.did = m.di
 /-- every entry of the clone map points to a node that has been rebuilt with that data id and
 kind and with the data object that the source nodes with this data id carry. -/
 def CmapOK (all : List T) (c : CMap) (t : Tree) : Prop :=
-  ∀ d cidx ck, (d, cidx, ck) ∈ c →
+  ∀ d cidx ck, (d, cidx, ck) ∈ c → 0 < cidx ∧
     ∃ i ∈ infos t.root, i.id = cidx ∧ i.did = d ∧ i.kind = ck ∧ ∃ m ∈ all, m.did = d ∧ m.data = i.data
 
 /-- the leaf built for source node `n` as entry number `nx`. -/
@@ -160,8 +139,8 @@ theorem cmapOK_append {all : List T} {c : CMap} {t t' : Tree} {p : NodeId} {P : 
     (hC : CmapOK all c t) (hN : C10.IdsNodup t.root) (hP : findT p t.root = some P)
     (hr : t'.root = modT p (fun l => l ++ new) t.root) : CmapOK all c t' := by
   intro d cidx ck hm
-  obtain ⟨i, hi, h1⟩ := hC d cidx ck hm
-  exact ⟨i, by rw [hr]; exact infos_subset_modT_append hN hP hi, h1⟩
+  obtain ⟨h0, i, hi, h1⟩ := hC d cidx ck hm
+  exact ⟨h0, i, by rw [hr]; exact infos_subset_modT_append hN hP hi, h1⟩
 
 /-- one leaf appended with the payload of `n`. -/
 theorem append_leaf {t : Tree} {nx p : NodeId} {P n : T} {did? : Option DataId} {kind : Option String}
@@ -215,7 +194,7 @@ theorem full_step {typed : Bool} {strAtom : String → Atom} {deser : Fields →
       (kind := if typed then some "child" else none) hW hF hP hsib (Or.inr ⟨rfl, hh, h2⟩)
       (by rw [hty, h1, hkn]; rfl)
     refine ⟨t', ?_, hr, hW', hF', hty'.trans hty, hh'.trans hh⟩
-    simp only [fstep, idM_lookup hp, hn.str s hm, ha, idM_snoc]
+    simp only [fstep, fromListStep, fromListBody, idM_lookup hp, hn.str s hm, ha, idM_snoc]
     rfl
   | dict d =>
     rw [hm] at hf
@@ -227,6 +206,9 @@ theorem full_step {typed : Bool} {strAtom : String → Atom} {deser : Fields →
       split
       · rfl
       · simp [jDid_didJ]
+    have hunh : didUnhashable ((ser n d).getD d) = false :=
+      didUnhashable_of_lookup (o := if n.did = n.data.hid then none else some n.did) (by
+        rw [h2, makeEntry_dict_did hm]; split <;> rfl)
     have hdid' : (lookupF ((ser n d).getD d) "data_id").bind jDid = some n.did ∨
         ((lookupF ((ser n d).getD d) "data_id").bind jDid = none ∧ t.hook = none ∧ n.did = n.data.hid) := by
       rw [hdid]; by_cases hc : n.did = n.data.hid
@@ -242,7 +224,7 @@ theorem full_step {typed : Bool} {strAtom : String → Atom} {deser : Fields →
       obtain ⟨t', ha, hr, hW', hF', hty', hh'⟩ := append_leaf (n := n) (kind := none) hW hF hP hsib hdid'
         (by rw [hty, hkn]; rfl)
       refine ⟨t', ?_, hr, hW', hF', hty'.trans hty, hh'.trans hh⟩
-      simp only [fstep, idM_lookup hp, h1, idM_snoc, Bool.false_eq_true, if_false, ha]
+      simp only [fstep, fromListStep, fromListBody, idM_lookup hp, h1, idM_snoc, Bool.false_eq_true, if_false, ha, hunh]
       rfl
     | true =>
       obtain ⟨k, hk⟩ : ∃ k, n.kind = some k := by
@@ -253,8 +235,8 @@ theorem full_step {typed : Bool} {strAtom : String → Atom} {deser : Fields →
       obtain ⟨t', ha, hr, hW', hF', hty', hh'⟩ := append_leaf (n := n) (kind := some k) hW hF hP hsib hdid'
         (by rw [hty, hk]; rfl)
       refine ⟨t', ?_, hr, hW', hF', hty'.trans hty, hh'.trans hh⟩
-      simp only [fstep, idM_lookup hp, h1, idM_snoc, if_true, h3 rfl, makeEntry_dict_kind hm, hk,
-        Option.map_some, ha]
+      simp only [fstep, fromListStep, fromListBody, idM_lookup hp, h1, idM_snoc, if_true, h3 rfl, makeEntry_dict_kind hm, hk,
+        Option.map_some, ha, hunh, Bool.false_eq_true, if_false]
       rfl
 
 /-- reading a reference to an earlier entry appends a leaf with the payload of that entry, which is
@@ -269,7 +251,7 @@ theorem ref_step {typed : Bool} {strAtom : String → Atom} {deser : Fields → 
       t'.root = modT p (fun l => l ++ [leafOf n nx]) t.root ∧
       WF t' ∧ C01.Fresh t' (nx + 1) ∧ t'.typed = typed ∧ t'.hook = t.hook := by
   have hN := hW.idsN
-  obtain ⟨i, hi, hid, hdid, hkind, m, hm, hmd, hmdata⟩ := hC _ _ _ hl
+  obtain ⟨hc0, i, hi, hid, hdid, hkind, m, hm, hmd, hmdata⟩ := hC _ _ _ hl
   obtain ⟨fc, hfc, hfci⟩ := List.mem_map.1 hi
   have hfcid : fc.id = cidx := by show fc.info.id = cidx; rw [hfci, hid]
   have hfind : findT cidx t.root = some fc := by rw [← hfcid]; exact findT_of_mem hN hfc
@@ -310,7 +292,8 @@ theorem ref_step {typed : Bool} {strAtom : String → Atom} {deser : Fields → 
   refine ⟨t', ?_, hr, hW', hF', hty'.trans hty, hh'⟩
   rw [← hfdata, ← hfdid] at ha
   have hadd := addNode_shallow (src := fc) (kind := if typed then fc.kind else none) hpar ha
-  simp only [fstep, idM_lookup hp, idM_lookup hlt, hfind, hadd, idM_snoc]
+  simp only [fstep, fromListStep, fromListBody, idM_lookup hp, idM_lookup hlt, hfind, hadd, idM_snoc,
+    if_neg (Nat.ne_of_gt hc0)]
 
 theorem modT_id' (p : NodeId) (r : T) : modT p (fun l => l) r = r := by
   induction r using T.ind with
@@ -364,7 +347,7 @@ theorem row_step {typed : Bool} {strAtom : String → Atom} {deser : Fields → 
         · exact hold d cidx ck hm
         · simp only [List.mem_singleton, Prod.mk.injEq] at hm
           obtain ⟨e1, e2, e3⟩ := hm
-          exact ⟨(leafOf n nx).info, by rw [hr]; exact leafOf_info_mem hN hP, e2.symm, e1.symm, e3.symm,
+          exact ⟨e2 ▸ hF.1, (leafOf n nx).info, by rw [hr]; exact leafOf_info_mem hN hP, e2.symm, e1.symm, e3.symm,
             n, hnall, e1.symm, rfl⟩
       · exact hold
   | some v =>
